@@ -145,7 +145,24 @@ def env_class(texts, env) -> str:
     for var in ("python_full_version", "implementation_version", "platform_release"):
         val = env.get(var)
         if isinstance(val, str) and re.search(r"(a|b|rc|dev|post)\d*$", val):
-            return "nonfinal-env|"
+            # the recorded class: the non-final value is a pre/post-release OF A BOUND occurring in the markers (that is where PEP 440's
+            # exclusion of the candidate applies); python_version bounds X.Y count as X.Y.0 and, for > and <=, as X.(Y+1).0
+            base = tuple(int(x) for x in re.match(r"(\d+(?:\.\d+)*)", val).group(1).split("."))
+            base = (base + (0, 0, 0))[:3]
+            names = ("python_version", "python_full_version") if var == "python_full_version" else (var,)
+            bounds = set()
+            for t in texts:
+                for nm in names:
+                    for lit in re.findall(nm + r'\s*(?:~=|==|!=|<=|>=|<|>)\s*"([^"]*)"', t or "") + re.findall(r'"([^"]*)"\s*(?:~=|==|!=|<=|>=|<|>)\s*' + nm, t or ""):
+                        mm = re.match(r"\s*(\d+(?:\.\d+)*)", lit)
+                        if mm:
+                            r = tuple(int(x) for x in mm.group(1).split("."))
+                            bounds.add((r + (0, 0, 0))[:3])
+                            if len(r) <= 2:
+                                r2 = (r + (0,))[:2]
+                                bounds.add((r2[0], r2[1] + 1, 0))
+            if base in bounds:
+                return "nonfinal-env|"
     for t in texts:
         for var, lst in re.findall(r'(python_version|python_full_version) (?:not in|in) "([^"]*)"', t or ""):
             val = env.get(var)
